@@ -7,7 +7,7 @@ from scenario import pedigree as PED, phasing as PH, vcf as V
 LEVEL = "exploration"
 LEVEL_TEXT = ("Deductive part (vcgen/z3, all inputs, over the axiomatised pysam model): PhasedVcfWriter._remove_existing_phasing clears HP and PS and every phase bit of the target samples' calls, sorts fully known genotypes (same allele multiset), leaves partially missing / absent genotypes, the calls of non-target samples and the FORMAT keys exactly as they were; VcfAugmenter._iterrecords (a generator over the reader's iterator object) yields the pending record and then exactly the next records of the requested chromosome in file order, stopping at - and keeping - the first record of another chromosome, and write_unchanged appends exactly that stream to the output, every record untouched (contracts/vcf_py.py). "
               ""
-              "A LOOP-BODY contract for the record pass of PhasedVcfWriter.write (the loop verified as a unit over arbitrary per-sample result dictionaries; the code before it and the record modifier's write-after-yield are not): whichever `continue` a record takes, a call of a sample that is not being phased is untouched, and a call of a sample that is being phased ends either with NO phase statement (no phase bit, HP and PS empty wherever the record has those keys, whatever the input said) or with the NEW one in the run's encoding and nothing of the other encoding - with --tag=PS: genotype = the haplotype alleles in order, phase bits set, PS = component + 1, HP empty; with --tag=HP: HP set, no phase bit, PS empty (contracts/vcfwrite_py.py; _remove_existing_phasing enters through its proved contract, _set_phasing_tags through _set_PS's proved postcondition for PS and an assumed one for HP). "
+              "A LOOP-BODY contract for the record pass of PhasedVcfWriter.write (the loop verified as a unit over arbitrary per-sample result dictionaries; the code before it and the record modifier's write-after-yield are not): whichever `continue` a record takes, a call of a sample that is not being phased is untouched, and a call of a sample that is being phased ends either with NO phase statement (no phase bit, HP and PS empty wherever the record has those keys, whatever the input said) or with the NEW one in the run's encoding and nothing of the other encoding - with --tag=PS: genotype = the haplotype alleles in order, phase bits set, PS = component + 1, HP empty; with --tag=HP: HP set, no phase bit, PS empty (contracts/vcfwrite_py.py; _remove_existing_phasing enters through its proved contract, _set_phasing_tags through _set_PS's / _set_HP's proved postconditions, assuming only that __init__ bound the method that belongs to the tag). "
               "Bounded stand-in: whole `whatshap phase` runs (VCF-only phase inputs, no BAM needed) on generated multi-sample, multi-chromosome VCFs "
               "with arbitrary INFO/FORMAT fields, missing/partial genotypes, multi-ALT, symbolic and duplicate records and pre-existing phasing, over "
               "--sample/--chromosome selections, both tags and --only-snvs; the output is compared with the input record by record by an independent "
